@@ -150,7 +150,7 @@ pub fn spec_c12() -> PropSpec {
         id: "C12",
         profile: pf,
         tape_len: 400,
-        make: || vec![Box::new(super::c06::Aux(Box::new(ValueOracle::new()))), Box::new(CycStats::new(12))],
+        make: || vec![Box::new(CycKf::new(Box::new(ValueOracle::new()))), Box::new(CycStats::new(12))],
         nt_rule: "",
     }
 }
@@ -162,7 +162,7 @@ pub fn spec_c13() -> PropSpec {
         id: "C13",
         profile: pf,
         tape_len: 400,
-        make: || vec![Box::new(FallbackKf::new()), Box::new(CycStats::new(13))],
+        make: || vec![Box::new(CycKf::new(Box::new(FallbackKf::new()))), Box::new(CycStats::new(13))],
         nt_rule: "",
     }
 }
@@ -175,7 +175,7 @@ pub fn spec_c14() -> PropSpec {
         id: "C14",
         profile: pf,
         tape_len: 400,
-        make: || vec![Box::new(super::c06::Aux(Box::new(ValueOracle::new()))), Box::new(CycStats::new(14))],
+        make: || vec![Box::new(CycKf::new(Box::new(ValueOracle::new()))), Box::new(CycStats::new(14))],
         nt_rule: "",
     }
 }
@@ -188,7 +188,7 @@ pub fn spec_c15() -> PropSpec {
         id: "C15",
         profile: pf,
         tape_len: 400,
-        make: || vec![Box::new(super::c06::Aux(Box::new(ValueOracle::new()))), Box::new(CycStats::new(15))],
+        make: || vec![Box::new(CycKf::new(Box::new(ValueOracle::new()))), Box::new(CycStats::new(15))],
         nt_rule: "",
     }
 }
@@ -288,6 +288,119 @@ impl Oracle for FallbackKf {
         }
         if self.tainted_reshape {
             l.push("kf-c13-reshape-affected");
+        }
+        l
+    }
+}
+
+// ---------------------------------------------------------------------------------------------
+// Listed findings shared by every property that runs cyclic programs (C12-C15, C18, C20...).
+//
+// kf:cycle-finalized-with-unstable-dependencies — the flattened dependency list of a cycle member
+// is assembled from the memos its callees had when it ran, so an input read far away in the cycle
+// reaches a member only after several iterations. salsa finalizes the cycle as soon as values and
+// changed_at/durability are stable, which can be earlier: the member is then stored without an edge
+// to that input and later revisions validate it although the input changed (stale result).
+// Signature (cause level, from the guarded trace hook in `try_complete_cycle_head`): a cycle was
+// finalized although, in its last iteration, the flattened input edges of some head differed
+// from those of that head's previous provisional memo. From that step on, a wrong value of a
+// request that reaches a function executed in that computation is reported under this rule.
+//
+// kf:backdate-assertion-near-cycle — the debug assertion in MemoHeader::backdate assumes that a
+// re-executed query whose value is unchanged cannot get an older changed_at. Cycle members are
+// never backdated and are conservatively reported as changed, so a query that re-executes after
+// a cycle it belonged to, or that one of its callees belongs to, was reshaped can compute an equal
+// value from older stamps: debug builds panic on a valid program.
+// ---------------------------------------------------------------------------------------------
+
+pub const KF_STALE_DEPS: &str = "kf:cycle-finalized-with-unstable-dependencies";
+pub const KF_BACKDATE_CYCLE: &str = "kf:backdate-assertion-near-cycle";
+
+pub struct CycKf {
+    inner: Box<dyn Oracle>,
+    /// nodes executed in a fixpoint computation that was finalized with unstable dependencies
+    tainted: BTreeSet<u8>,
+    manifested: bool,
+    ever_cyclic: BTreeSet<u8>,
+    unstable_finalizations: u32,
+    finalizations: u32,
+    backdate_hits: u32,
+}
+
+impl CycKf {
+    pub fn new(inner: Box<dyn Oracle>) -> Self {
+        CycKf { inner, tainted: BTreeSet::new(), manifested: false, ever_cyclic: BTreeSet::new(), unstable_finalizations: 0, finalizations: 0, backdate_hits: 0 }
+    }
+}
+
+impl Oracle for CycKf {
+    fn step(&mut self, cx: &StepCtx) -> Vec<Violation> {
+        use salsa::verif_hooks::TraceEvent as T;
+        let prog = &cx.case.prog;
+        // 1. did a cycle finalize with unstable dependencies in this step?
+        let mut last: std::collections::BTreeMap<(u32, u64), bool> = Default::default();
+        let mut unstable = false;
+        for h in cx.hooks {
+            if let T::CycleHead { ingredient, key, finalized, deps_stable, .. } = h {
+                last.insert((*ingredient, *key), *deps_stable);
+                if *finalized {
+                    self.finalizations += 1;
+                    if last.values().any(|s| !*s) {
+                        unstable = true;
+                        self.unstable_finalizations += 1;
+                    }
+                    last.clear();
+                }
+            }
+        }
+        if unstable {
+            for r in cx.recs {
+                if let Rec::Start(LKey::Node(n, _), _) = r {
+                    if matches!(prog.nodes[*n as usize].kind, Kind::Fix | Kind::FixJoin | Kind::Div | Kind::Fall) {
+                        self.tainted.insert(*n);
+                    }
+                }
+            }
+        }
+        let mut v = self.inner.step(cx);
+        if let StepRes::Got { key, .. } = cx.res {
+            let lat = Lat::new(prog, cx.model);
+            let reach = lat.reach(key.0);
+            for c in lat.cycles() {
+                self.ever_cyclic.extend(c);
+            }
+            let reaches_tainted = reach.iter().any(|n| self.tainted.contains(n));
+            let near_cycle = reach.iter().any(|n| self.ever_cyclic.contains(n));
+            for x in v.iter_mut() {
+                let stale_like = matches!(x.rule.as_str(), "value-mismatch" | "missing-panic" | "unexpected-panic" | "wrong-panic")
+                    && !x.detail.contains("returned the same value, but the previous execution changed at");
+                if stale_like && (reaches_tainted || self.manifested) && !self.tainted.is_empty() {
+                    x.rule = KF_STALE_DEPS.to_string();
+                    self.manifested = true;
+                } else if x.rule == "unexpected-panic"
+                    && x.detail.contains("returned the same value, but the previous execution changed at")
+                    && near_cycle
+                {
+                    x.rule = KF_BACKDATE_CYCLE.to_string();
+                    self.backdate_hits += 1;
+                }
+            }
+        }
+        v
+    }
+    fn finish(&mut self, case: &Case, ix: &Index) -> Vec<Violation> {
+        self.inner.finish(case, ix)
+    }
+    fn labels(&self) -> Vec<&'static str> {
+        let mut l: Vec<&'static str> = self.inner.labels().into_iter().filter(|x| *x != "nontrivial").collect();
+        if self.finalizations > 0 {
+            l.push("cycle-finalized");
+        }
+        if self.unstable_finalizations > 0 {
+            l.push("kf-unstable-deps-finalization");
+        }
+        if self.manifested {
+            l.push("kf-stale-deps-manifested");
         }
         l
     }
